@@ -8,7 +8,7 @@ package async_disk
 
 //@ props C09
 
-//@ func NewMemDisk
+//@ func NewMemDisk (numBlocks)
 //@   requires numBlocks < 0x1000000000
 //@   requires forall r Int :: r >= brk ==> !held_w[r] && !held_r[r]
 //@   ensures [requested size] uint64(len(result.blocks)) == numBlocks
@@ -16,7 +16,7 @@ package async_disk
 //@   ensures [fresh storage and lock] fresh(result.blocks) && fresh(result.l) && result.l != nil
 //@   ensures [lock free] !held_w[ref(result.l)] && !held_r[ref(result.l)]
 
-//@ func NewFileDisk
+//@ func NewFileDisk (path, numBlocks)
 //@   requires [size fits a file offset] numBlocks <= 0x7ffffffffffff
 //@   requires [kernel invariant: file sizes are not negative] forall i Int :: ksize[i] >= 0
 //@   may_panic
